@@ -9,6 +9,11 @@ def run(ctx):
     failing, errors = _wire.run_coq(ctx, "C03", cases)
     viol = []
     prop_fail = [i for i, c in enumerate(cases) if not c["c03_ok"]]
+    from .. import envprobe
+    env_diffs, n_env = envprobe.decode_differences(classes, [c for c in cases if c["decorated"]], sample=250 if ctx["tier"] == "quick" else 2000, rnd=gen.r)
+    if env_diffs:
+        viol.append({"kind": "property", "what": "decoding a conforming encoding depends on how the interpreter was started",
+                     "failing_input_found": True, "n_failing": len(env_diffs), "cases": env_diffs[:3]})
     if errors:
         viol.append({"kind": "correspondence", "what": "model evaluation failed", "detail": errors[:3]})
     if prop_fail:
@@ -27,7 +32,7 @@ def run(ctx):
         "rule": "per class, typed values over the wire domain, decorated with explicitly sent defaults (p=0.5 per tagged "
                 "field, incl. explicit nulls) and 1-3 unknown tagged fields (p=0.6 per flexible entity, at every nesting "
                 "level), encoded by the independent reference encoder; non-trivial = carries at least one decoration",
-        "decorated_cases": n_dec, "generator_stats": gen.stats, "distribution": _codec.distribution(cases, classes),
+        "decorated_cases": n_dec, "decodes_repeated_under_other_interpreter_settings": n_env, "generator_stats": gen.stats, "distribution": _codec.distribution(cases, classes),
         "samples": [_wire.describe(classes, c) for c in [c for c in cases if c["decorated"]][:2]],
         "property_failures_on_implementation": len(prop_fail), "correspondence_disagreements": len(failing),
     }
